@@ -163,6 +163,20 @@ fn dump_crate<'tcx>(tcx: TyCtxt<'tcx>, krate: &str, out: &mut String) {
                     out.push('\n');
                 }
             }
+            DefKind::TyAlias => {
+                let mut j = J::obj();
+                j.set("k", J::str("alias"));
+                j.set("path", J::str(&tcx.def_path_str(did)));
+                if !tcx.generics_of(did).requires_monomorphization(tcx) {
+                    let t = tcx.type_of(did).instantiate_identity().skip_norm_wip();
+                    let env = TypingEnv::fully_monomorphized();
+                    let t = tcx.try_normalize_erasing_regions(env, ty::Unnormalized::new_wip(t)).unwrap_or(t);
+                    j.set("ty", J::str(&t.to_string()));
+                }
+                j.set("span", span_json(tcx, tcx.def_span(did)));
+                j.write(out);
+                out.push('\n');
+            }
             DefKind::Impl { .. } => {
                 let mut j = J::obj();
                 j.set("k", J::str("impl"));
